@@ -15,7 +15,43 @@ from ..learners import RECORDS, ExactLearner, NestedExactLearner, hypotheses
 import logging
 logging.getLogger("fairlearn").setLevel(logging.ERROR)
 
-TOL = 1e-9
+TOL = 1e-9          # legacy constant (no comparison uses it any more)
+# Review R3: per-comparison tolerances, each <= 100 x the largest deviation measured on the clean tree (quick seeds 0, 1
+# and seed 2 at VERIF_BUDGET_SCALE=2, ~1500 cases; run with C09_DEV_FILE=<path> to re-measure):
+TOL_LAM = 5e-14     # multiplier entries, float lambda_vecs_ / _GridGenerator.grid vs exact grid; sign and L1 bound (measured 8.9e-16)
+TOL_REC = 2e-14     # objectives_ / gammas_ vs the exact values of the predictor (measured 2.8e-16)
+TOL_W = 5e-13       # sample weights handed to the learner vs the exact |w|; also the "weight is zero" threshold (measured 7.1e-15)
+TOL_BR = F(4, 10 ** 15)   # exact objective+lambda.gamma of a predictor above the exact class minimum (measured 7.4e-17:
+#                           exact ties that the float lambda turns into near-ties; the learner's own tie rule is 1e-12 * total weight)
+TOL_SEL = F(1, 10 ** 13)  # exact loss of best_idx_ above the exact minimum (measured 0; a float loss carries <= 1e-15 error)
+TOL_PROBA = 1e-15   # predict_proba of GridSearch vs of predictors_[best_idx_] (same object, same input: measured 0)
+DISTINCT_DIGITS = 12      # two multiplier vectors are "the same" when they agree to 12 decimals (distinct ones differ by >= grid_limit/n_units >= 1/250)
+# review R3: the largest deviation seen per comparison category in this process (`python -m harness.props.c09_measure`
+# style instrumented runs read it; the per-category tolerances below are <= 100 x the maxima measured on the clean tree)
+DEV = {}
+
+
+def _dev(cat, x):
+    x = float(x)
+    if x > DEV.get(cat, 0.0):
+        DEV[cat] = x
+    return x
+
+
+if os.environ.get("C09_DEV_FILE"):      # instrumented measuring run: dump the maxima at exit
+    import atexit
+    atexit.register(lambda: open(os.environ["C09_DEV_FILE"] + f".{os.getpid()}", "w").write(json.dumps(DEV, indent=1)))
+
+
+def _mat_far(cat, exact, fl, tol):
+    """exact matrix (Fractions, list of columns) vs float matrix: True when the shapes differ or an entry is farther
+    than `tol` (every entry is looked at: zip truncation must not hide a missing row)"""
+    if len(exact) != len(fl) or any(len(cm) != len(ci) for cm, ci in zip(exact, fl)):
+        return True
+    d = max((abs(a - float(b_)) for cm, ci in zip(exact, fl) for b_, a in zip(cm, ci)), default=0.0)
+    return _dev(cat, d) > tol
+
+
 MOMENTS = ("DP", "TPR", "FPR", "EO", "ERP", "BGL")
 _COUNTER = itertools.count()
 
@@ -241,7 +277,13 @@ class CHECK(Check):
             "a group lacks a label; 12% of the cases run _GridGenerator ALONE on unit bases (1..4 coordinates, any neg_allowed "
             "pattern, forced or free L1 norm, grid_size 1..125); thorough adds the exhaustive enumeration of all patterns x "
             "grid_size 1..100 (a test); distinct = distinct case; non-trivial = grid with >= 2 distinct trained labelings or "
-            ">= 3 grid points")
+            ">= 3 grid points; bound slack eps in {0,1/100,1/8,1/4}; constraint_weight in {0,1/8,1/4,1/2,3/4,7/8,1}; the learner "
+            "breaks cost ties within 1e-12 x total weight in favour of the first labeling; ~30% of the fit cases refit a "
+            "GridSearch object that had a previous life on auxiliary data, ~30% use a learner whose fitted state is nested; "
+            "generator-only cases force the L1 norm only with >= 2 coordinates (true_dim >= 1: with true_dim = 0 the source "
+            "raises ZeroDivisionError in 1.0/true_dim, outside the quantifier); tolerances: 5e-14 on multipliers, 2e-14 on "
+            "recorded objective/gamma, 5e-13 on sample weights, 4e-15 best-response excess, 1e-13 selection excess "
+            "(<= 100 x the measured maxima 8.9e-16, 2.8e-16, 7.1e-15, 7.4e-17, 0)")
     explanation = ("theorems over Model/Grid.lean (defined over Generated/GridSrc.lean); model-vs-oracle disagreements are "
                    "HARNESS-ERROR only while the lifted fragments equal the pinned text, a broken tie otherwise; the two hypotheses of the distinctness / L1 theorems (unitBasis, basisOK) are "
                    "evaluated by the driver on the bases exported from every fitted estimator; GridSearch.fit returning None "
@@ -301,16 +343,19 @@ class CHECK(Check):
                 probs.append(Problem("correspondence", f"{where}: grid index {o['rows']}", "C09.index"))
             if len(lam) != gsz:
                 probs.append(Problem("property", f"{where}: {len(lam)} vectors", "C09.grid_length"))
-            if len({tuple(round(v, 9) for v in c) for c in lam}) != len(lam):
+            if len({tuple(round(v, DISTINCT_DIGITS) for v in c) for c in lam}) != len(lam):
                 probs.append(Problem("property", f"{where}: duplicate multiplier vectors", "C09.grid_distinct"))
             for i, c in enumerate(lam):
                 l1 = sum(abs(v) for v in c)
-                if min(c) < -TOL or l1 > float(limit) + TOL or (case["force"] and abs(l1 - float(limit)) > TOL):
+                _dev("gen.negative", max(0.0, -min(c)))
+                _dev("gen.l1-over", max(0.0, l1 - float(limit)))
+                if case["force"]:
+                    _dev("gen.l1-forced", abs(l1 - float(limit)))
+                if min(c) < -TOL_LAM or l1 > float(limit) + TOL_LAM or (case["force"] and abs(l1 - float(limit)) > TOL_LAM):
                     probs.append(Problem("property", f"{where}: vector {i} = {c} (negative entry, L1 norm > grid_limit, or L1 "
                                                      f"norm != grid_limit although forced)", "C09.grid_nonneg / grid_l1_le_limit"))
                     break
-            if lam_or is None or len(lam_or) != len(lam) or any(
-                    abs(a - float(b_)) > TOL for cm, ci in zip(lam_or, lam) for b_, a in zip(cm, ci)):
+            if lam_or is None or _mat_far("gen.lam", lam_or, lam, TOL_LAM):
                 probs.append(Problem("correspondence", f"{where}: grid differs from the documented one (n_units={n_or})",
                                      "C09.grid (lattice order / scale / basis map)"))
         if mo is not None and len(mo) == 2:
@@ -327,8 +372,7 @@ class CHECK(Check):
                     probs.append(Problem(mo_kind() if no_over else "correspondence",
                                          f"{where}: model grid (n={n_m}) != documented grid (n={n_or})",
                                          mo_rel("C09.estimate_harmless / source_lattice_eq")))
-                if "lam" in o and (len(lam_m) != len(o["lam"]) or any(
-                        abs(a - float(b_)) > TOL for cm, ci in zip(lam_m, o["lam"]) for b_, a in zip(cm, ci))):
+                if "lam" in o and _mat_far("gen.lam-model", lam_m, o["lam"], TOL_LAM):
                     probs.append(Problem("correspondence", f"{where}: grid differs from the model started at the source's float "
                                                            f"estimate (model n_units={n_m})", "C09.grid (search from the estimate)"))
             est = mo[1].split(" ")
@@ -581,12 +625,14 @@ class CHECK(Check):
                                                    f"entries {P.index}", "C09.index"))
         off = offset_of(case, o["lam_index"])
         for i, col in enumerate(o["lam"] if off is None else []):
-            if min(col) < -TOL:
+            _dev("lam.negative", max(0.0, -min(col)))
+            _dev("lam.l1-over", max(0.0, sum(abs(v) for v in col) - float(limit)))
+            if min(col) < -TOL_LAM:
                 probs.append(Problem("property", f"multiplier vector {i} has a negative entry {min(col)}", "C09.grid_nonneg"))
-            if sum(abs(v) for v in col) > float(limit) + TOL:
+            if sum(abs(v) for v in col) > float(limit) + TOL_LAM:
                 probs.append(Problem("property", f"multiplier vector {i} has L1 norm {sum(abs(v) for v in col)} > "
                                                  f"grid_limit {limit}", "C09.grid_l1_le_limit"))
-        distinct = len({tuple(round(v, 9) for v in col) for col in o["lam"]})
+        distinct = len({tuple(round(v, DISTINCT_DIGITS) for v in col) for col in o["lam"]})
         if distinct != len(o["lam"]):
             probs.append(Problem("property", f"only {distinct} distinct multiplier vectors of {len(o['lam'])}",
                                  "C09.grid_distinct"))
@@ -599,7 +645,7 @@ class CHECK(Check):
             if span:
                 yr = list(case["y"])
             # rows whose exact weight is (numerically) zero may get either label from float noise
-            single = len({yy for yy, ww in zip(yr, wr) if span or ww > TOL}) <= 1
+            single = len({yy for yy, ww in zip(yr, wr) if span or ww > TOL_W}) <= 1
             if p["dummy"]:
                 if not single:
                     probs.append(Problem("property", f"grid point {i}: a constant DummyClassifier was trained although the "
@@ -609,15 +655,17 @@ class CHECK(Check):
                     probs.append(Problem("property", f"grid point {i}: the base learner was never fitted", "C09.relabel"))
                 else:
                     r = rec.pop(0)
-                    bad_y = [j for j in range(P.n) if wr[j] > TOL and r["y"][j] != yr[j]]
-                    bad_w = [j for j in range(P.n) if abs(r["w"][j] - float(wr[j])) > TOL]
-                    if len(r["y"]) != P.n or bad_y or bad_w:
+                    ok_len = len(r["y"]) == P.n and len(r["w"]) == P.n
+                    bad_y = [j for j in range(P.n) if wr[j] > TOL_W and r["y"][j] != yr[j]] if ok_len else []
+                    bad_w = [j for j in range(P.n) if _dev("weights", abs(r["w"][j] - float(wr[j]))) > TOL_W] if ok_len else []
+                    if not ok_len or bad_y or bad_w:
                         probs.append(Problem("property", f"grid point {i}: learner was given labels {r['y']} weights {r['w']}; "
                                                          f"relabelling/reweighting for its multiplier is {yr} "
                                                          f"{[float(v) for v in wr]}", "C09.relabel"))
             val = P.target(lam, p["train"], span)
             best = min(P.target(lam, h, span) for h in H)
-            if val > best + F(1, 10 ** 9):
+            _dev("best-response excess", max(F(0), val - best))
+            if val > best + TOL_BR:
                 probs.append(Problem("property", f"grid point {i}: predictor {p['vals']} has objective+lambda.gamma = "
                                                  f"{float(val)} but the class minimum is {float(best)}", "C09.best_response"))
             costs.append((ro.weighted01(yr, wr, p["train"]), min(ro.weighted01(yr, wr, h) for h in H)))
@@ -626,13 +674,19 @@ class CHECK(Check):
 
         # -- clause 3: recorded objective / constraint values are those of the predictor ----------------------
         gidx = [tuple(k) for k in o["gam_index"]]
+        if len(o["objectives"]) != len(o["predictors"]) or len(o["gammas"]) != len(o["predictors"]):
+            probs.append(Problem("property", f"{len(o['objectives'])} objectives_ / {len(o['gammas'])} gammas_ columns for "
+                                             f"{len(o['predictors'])} predictors_", "C09.records"))
+        if gams and (sorted(gidx) != sorted(gams[0]) or any(len(c) != len(gidx) for c in o["gammas"])):
+            probs.append(Problem("property", f"gammas_ index {sorted(gidx)} != the constraint index {sorted(gams[0])}",
+                                 "C09.records"))
         for i, (ob, gm) in enumerate(zip(objs, gams)):
-            if i < len(o["objectives"]) and abs(o["objectives"][i] - float(ob)) > TOL:
+            if i < len(o["objectives"]) and _dev("objectives_", abs(o["objectives"][i] - float(ob))) > TOL_REC:
                 probs.append(Problem("property", f"objectives_[{i}] = {o['objectives'][i]} but the predictor's objective is "
                                                  f"{ob}", "C09.records"))
             if i < len(o["gammas"]):
                 for k, v in zip(gidx, o["gammas"][i]):
-                    if k not in gm or abs(v - float(gm[k])) > TOL:
+                    if k not in gm or _dev("gammas_", abs(v - float(gm[k]))) > TOL_REC:
                         probs.append(Problem("property", f"gammas_[{i}][{k}] = {v} but the predictor's value is "
                                                          f"{gm.get(k)}", "C09.records"))
                         break
@@ -642,14 +696,15 @@ class CHECK(Check):
         b = o["best_idx"]
         if not (0 <= b < len(losses)):
             probs.append(Problem("property", f"best_idx_ = {b} out of range", "C09.argminFirst_spec"))
-        elif losses[b] > min(losses) + F(1, 10 ** 9):
+        elif _dev("selection excess", losses[b] - min(losses)) > TOL_SEL:
             probs.append(Problem("property", f"best_idx_ = {b} has trade-off loss {float(losses[b])}, the minimum "
                                              f"{float(min(losses))} is attained at {losses.index(min(losses))}",
                                  "C09.argminFirst_spec"))
         if o["predict"] != o["predict_best"]:
             probs.append(Problem("property", f"predict = {o['predict']} but the selected predictor gives {o['predict_best']}",
                                  "C09.delegation"))
-        if np.abs(np.array(o["proba"]) - np.array(o["proba_best"])).max() > TOL:
+        if np.array(o["proba"]).shape != np.array(o["proba_best"]).shape or \
+                _dev("proba", np.abs(np.array(o["proba"]) - np.array(o["proba_best"])).max()) > TOL_PROBA:
             probs.append(Problem("property", "predict_proba differs from the selected predictor's", "C09.delegation"))
         if 0 <= b < len(o["predictors"]) and o["predict_best"] != o["predictors"][b]["vals"]:
             probs.append(Problem("correspondence", "predictors_[best_idx_] is not deterministic", "C09.delegation"))
@@ -675,8 +730,7 @@ class CHECK(Check):
                                          mo_rel("C09.source_lattice_eq / grid (documented lattice, scaling, basis map)")))
                 if off is not None:
                     lam_m = [[a + b_ for a, b_ in zip(cm, off)] for cm in lam_m]
-                if len(lam_m) != len(o["lam"]) or any(
-                        abs(a - float(b_)) > TOL for cm, ci in zip(lam_m, o["lam"]) for b_, a in zip(cm, ci)):
+                if _mat_far("lam", lam_m, o["lam"], TOL_LAM):
                     probs.append(Problem("correspondence", f"lambda_vecs_ differ from the model grid (model n_units={n_m})",
                                          "C09.grid (lattice/scale/basis map)"))
                 if not basis_ok:
@@ -740,8 +794,7 @@ class CHECK(Check):
                     probs.append(Problem(mo_kind() if no_over else "correspondence",
                                          f"model grid started at the float estimate (n={n_m}) != documented grid (n={n_or}) "
                                          f"+ offset", mo_rel("C09.estimate_harmless / grid_offset_distinct")))
-            if len(lam_m) != len(o["lam"]) or any(
-                    abs(a - float(b_)) > TOL for cm, ci in zip(lam_m, o["lam"]) for b_, a in zip(cm, ci)):
+            if _mat_far("lam-from-estimate", lam_m, o["lam"], TOL_LAM):
                 probs.append(Problem("correspondence", f"lambda_vecs_ differ from the model grid started at the source's "
                                                        f"float estimate (model n_units={n_m})",
                                      "C09.grid (search from the estimate, scale, basis map, offset)"))
@@ -765,12 +818,12 @@ class CHECK(Check):
                     or (t[3] == "1") != (len(set(yr)) == 1):
                 probs.append(Problem(mo_kind(), f"model combined weights / relabelling / dummy rule != oracle at grid point {i}",
                                      mo_rel("C09.best_response (combine, relabel, useDummy)")))
-            elif case["moment"] != "BGL" and all(x > TOL for x in wr) and (t[3] == "1") != p["dummy"]:
+            elif case["moment"] != "BGL" and all(x > TOL_W for x in wr) and (t[3] == "1") != p["dummy"]:
                 probs.append(Problem("correspondence", f"grid point {i}: DummyClassifier used = {p['dummy']} but the relabelled "
                                                        f"data has {len(set(yr))} distinct label(s)", "C09.relabel (dummy rule)"))
         # the whole loop (fitLoop) replayed with the recorded labelings as the base learner
         k = 2 + len(o["predictors"])
-        robust = case["moment"] != "BGL" and all(abs(x) > TOL for w in ws for x in w)
+        robust = case["moment"] != "BGL" and all(abs(x) > TOL_W for w in ws for x in w)
         if robust and k < len(mo):
             t = mo[k].split(" ")
             want = losses.index(min(losses))
